@@ -30,4 +30,4 @@ def run(ctx):
                      ranges="R_all1", faulty=1, fmodes=fm, absent=1, maxout=2)
     fam.mc_holds(ctx, "MC all shares on one server", readers=1, numsegs=1, inst="P_one3", ranges="R_all1", dmg=1,
                  dvals=("forged",), absent=0 if ctx.quick else 1, maxout=10)
-    fam.run_traces(ctx, "C03", "c03", 160 if ctx.quick else 3000)
+    fam.run_traces(ctx, "C03", "c03", 300 if ctx.quick else 3000)
